@@ -110,11 +110,42 @@ def apply_hist(dm, hist):
       ['delrow', i]                 del dm[i]
       ['concat', tab]               dm = dm << build(tab)
       ['merge', how, [i..], [j..]]  dm = dm[[i..]] | / & / ^ dm[[j..]]
-      ['addcol', col, kind, cells]  a column created and filled at this point of the history"""
+      ['addcol', col, kind, cells]  a column created and filled at this point of the history
+      ['read', how, ...]            the table is READ (result discarded; an exception is swallowed -- reading is judged by
+                                    other properties): 'columns' / 'column_names' / 'str' / 'rows' (row iteration) /
+                                    'len', or an earlier CALL of one of the operations under test on this very table
+                                    object: ['read', 'weight', col], ['read', 'z', col], ['read', 'replace', col],
+                                    ['read', 'keep', col], ['read', 'getitem', col], ['read', 'ff']
+      ['addtype', col, kind]        dm[col] = MixedColumn / FloatColumn / IntColumn: a column created BY TYPE and never
+                                    assigned to (it holds the default cells of its type)
+      ['addtuple', col, kind]       dm[col] = (FloatColumn, {}): created by a (type, keyword dict) pair, the form
+                                    SeriesColumn(depth=..) expands to
+      ['alias', new, old]           dm[new] = dm[old]: an existing column inserted under a second name"""
     import random
     from datamatrix import operations as ops
     for st in hist:
         k = st[0]
+        if k == 'read':
+            try:
+                with warnings.catch_warnings():
+                    warnings.simplefilter('ignore')
+                    read_table(dm, st[1:])
+            except Exception:           # noqa: BLE001
+                pass
+            continue
+        if k == 'addtype':
+            dm[st[1]] = coltype(st[2])
+            continue
+        if k == 'addtuple':
+            dm[st[1]] = (coltype(st[2]), {})
+            continue
+        if k == 'alias':
+            dm[st[1]] = dm[st[2]]
+            continue
+        if k == 'addseries':                # ['addseries', col, depth]: dm[col] = SeriesColumn(depth=depth), never assigned to
+            from datamatrix import SeriesColumn
+            dm[st[1]] = SeriesColumn(depth=st[2])
+            continue
         if k == 'sort':
             dm = ops.sort(dm, by=dm[st[1]])
         elif k == 'shuffle':
@@ -148,6 +179,36 @@ def apply_hist(dm, hist):
         else:
             raise AssertionError(st)
     return dm
+
+
+def read_table(dm, how):
+    from datamatrix import operations as ops
+    h = how[0]
+    if h == 'columns':
+        dm.columns
+    elif h == 'column_names':
+        dm.column_names
+    elif h == 'str':
+        str(dm)
+    elif h == 'rows':
+        for row in dm:
+            list(row)
+    elif h == 'len':
+        len(dm)
+    elif h == 'weight':
+        ops.weight(dm[how[1]])
+    elif h == 'z':
+        ops.z(dm[how[1]])
+    elif h == 'replace':
+        ops.replace(dm[how[1]], {0: 1})
+    elif h == 'keep':
+        ops.keep_only(dm, dm[how[1]])
+    elif h == 'getitem':
+        dm[how[1],]
+    elif h == 'ff':
+        ops.fullfactorial(dm)
+    else:
+        raise AssertionError(how)
 
 
 def hist_len(tab):
@@ -192,9 +253,31 @@ def hist_len(tab):
             if st[1] in names or len(st[3]) != n:
                 return None
             names.append(st[1])
+        elif k == 'read':
+            if len(st) > 2 and st[2] not in names:
+                return None
+        elif k in ('addtype', 'addtuple', 'addseries'):
+            if st[1] in names:
+                return None
+            names.append(st[1])
+        elif k == 'alias':
+            if st[1] in names or st[2] not in names:
+                return None
+            names.append(st[1])
         else:
             return None
     return n
+
+
+def columns_of(dm):
+    """The (name, column) pairs a table HOLDS (its storage `_cols`), in the order `dm.columns` documents: by name when
+    the table is `sorted` (the default), else as inserted.  The harness reads tables through this and not through the
+    `columns` / `column_names` properties, which the operations under test read themselves: a stale answer of those
+    properties must show as a wrong RESULT, it must not blind the reference as well."""
+    items = list(dm._cols.items())
+    if getattr(dm, '_sorted', True):
+        items.sort(key=lambda nc: nc[0])
+    return items
 
 
 def dump(dm):
@@ -202,7 +285,7 @@ def dump(dm):
     cols = []
     prob = None
     lits = []
-    for name, col in dm.columns:
+    for name, col in columns_of(dm):
         cells = list(col)
         cl = []
         for x in cells:
@@ -318,7 +401,9 @@ class C15:
             'and values with a large offset and a small spread (1e8+k, ms timestamps ~1.7e12, 123456789.25-style floats, '
             'around +-2^40 and +-2^52, mixed signs, one outlier next to a tight cluster; max|x|/std up to ~1e15), judged '
             'on the Python side with the tolerance max(1e-9, a-priori bound of the two-pass formula for that conditioning); '
-            'plus families with a rational standard deviation (centre up to 2^50) compared exactly with the model. Every table is '
+            'plus families with a rational standard deviation (centre up to 2^50) compared exactly with the model; the same '
+            'measurements in other units: Float / Mixed columns whose values and spreads have magnitude 1e-145 .. 1e145 (1e-19, '
+            '1e-18, 1e-30, 1e-100, 1e100 ...) and offsets of 1e8 with a spread of 1e-3, judged with the same bound. Every table is '
             'built with columns inserted in non-alphabetical order and in one of three row orders (as created / permuted '
             '/ selected from a larger table). Argument tables with a HISTORY (all five operations; apply_hist): a fresh table '
             'whose rows are reordered (ops.sort by one of its columns, ops.shuffle, an index list in which only some rows '
@@ -330,7 +415,14 @@ class C15:
             'list / tuple of names and columns, list of levels): both calls must observe the same thing (the second observation '
             'is judged by the oracle and the model too when it differs), in separate result objects, and after each call the '
             'argument objects must be unchanged (dict: the same key / value objects in the same order; lists: the same members; '
-            'columns still owned by their table); replace then uses the same mapping object on ANOTHER column of the same type '
+            'columns still owned by their table); LATE COLUMNS (all five operations, with and without a history before): the table '
+            'is READ (dm.columns, dm.column_names, str(dm), row iteration, or an earlier weight / z / replace / keep_only / '
+            'dm[...] / fullfactorial call on the same table object), then one to three columns are added WITHOUT a cell '
+            'assignment -- by type (dm.x = IntColumn), by a (type, kwargs) pair (what SeriesColumn(depth=..) expands to; real '
+            'series columns in the weight-with-series family), as a second name of an existing column (dm.b = dm.a) -- '
+            'sometimes read again, and only then handed to the operation: the result must account for them (weight: present '
+            'with their type and default / aliased cells; keep_only: kept iff named; fullfactorial: one more factor); the '
+            'reference reads the table through its column storage, not through dm.columns; replace then uses the same mapping object on ANOTHER column of the same type '
             'when the table has one (judged in Coq like the first); replace on series columns with a NaN key and NaN samples. '
             'non-trivial = the result differs from the source or an exception is raised; '
             'distinct by (operation, source table, parameters)')
@@ -343,7 +435,7 @@ class C15:
         'hand-written skeletons in Model/OpsMisc.v (loop structure, element-wise reading of np.isnan(array) / array == x, '
         'NumPy stores of replace on numeric columns, list repetition / concatenation, H[:, i] = rng), tied by the correspondence only',
         'object identities of columns (id(obj), the (name, object) list of the owning DataMatrix) as read by harness/c15.py',
-        'harness/c15.py (table builder, dumper through dm.columns / iteration, outcome classification), harness/pyobs.py, '
+        'harness/c15.py (table builder, dumper through the column storage dm._cols in the documented order of dm.columns / iteration, outcome classification), harness/pyobs.py, '
         'Run/SC15.v, Run/RC15.v comparators',
         'modelled, not verified: Python ==, list * int, range, enumerate, dict order, NumPy np.prod / zeros / column assignment '
         '/ isnan / where / fancy assignment, math.sqrt (only "s*s = variance" is assumed of it)',
@@ -364,6 +456,9 @@ class C15:
         '2^52) are judged for shape, exceptions and monotonicity only. The theorems are over exact rationals with s*s = '
         'variance as a hypothesis; element-wise column arithmetic is C13',
         'ints in z inputs stay below 2^53 (float(int) exact)',
+        'z: magnitudes are kept within 1e-145 .. 1e145 so that no squared deviation under- or overflows (the bound is scale '
+        'invariant under that condition); pending finding of the unchanged tree (INCLUDE_PENDING_FINDINGS = False, not '
+        'generated): beyond about 1e-160 / 1e155 std is 0 / inf and z returns +-inf / zeros or raises ZeroDivisionError',
         'pending / outside the quantifier (INCLUDE_PENDING_FINDINGS = False): a NaN key on a MixedColumn holding NaN cells '
         '(never matches; not judged by the oracle, the model is still compared) and -inf in a MixedColumn given to z (all '
         'scores NaN; not generated)',
@@ -468,12 +563,16 @@ class C15:
                     dm[nm][i] = [i * 10 + j + 0.5 * len(nm) for j in range(depth)]
         if inp.get('rowop') is not None:
             dm = dm[list(inp['rowop'])]
+        if inp.get('late'):
+            # the table is read, then columns are added by type / SeriesColumn(depth=..) / as a second name (no cell is
+            # assigned afterwards)
+            dm = apply_hist(dm, inp['late'])
 
         def snapshot(d):
-            out = {'len': len(d), 'names': [nm for nm, _c in d.columns]}
-            for nm, c in d.columns:
+            out = {'len': len(d), 'names': [nm for nm, _c in columns_of(d)]}
+            for nm, c in columns_of(d):
                 if isinstance(c, _SeriesColumn):
-                    out[nm] = ['series', c.depth, [[float(x) for x in cell] for cell in c]]
+                    out[nm] = ['series', c.depth, [[float(x).hex() for x in cell] for cell in c]]
                 else:
                     out[nm] = [kind_of(c), [pyobs.jsonable(x) for x in c]]
             return out
@@ -519,7 +618,8 @@ class C15:
         return {'input': inp, 'observed': observed, 'pyfail': pyfail, 'oracle': 'false' if pyfail else 'true', 'model': 'true',
                 'nontrivial': True, 'sig': 'weight_series|%s' % _compact(inp),
                 'tags': ['weight', 'weight:with-series', 'weight:' + ('ok' if valid else 'error'), 'wkind:' + inp['wkind'],
-                         'rows:' + ('asis' if inp.get('rowop') is None else 'reordered')]}
+                         'rows:' + ('asis' if inp.get('rowop') is None else 'reordered')]
+                + sorted({'weight-after:%s' % st[0] for st in inp.get('late') or []})}
 
     def _run_replace_series(self, inp):
         """replace on a SeriesColumn (optionally after its depth was changed: a reduced depth leaves the storage a view):
@@ -707,7 +807,7 @@ class C15:
         oracle = both(lambda o: '(replace_oracle %s %s %s %s)' % (kd, ml, cl, o), obs, obs2)
         model = both(lambda o: '(replace_agrees %s %s %s %s)' % (kd, ml, cl, o), obs, obs2)
         # the mapping object used for ANOTHER column of the same type afterwards (recoding several columns alike)
-        sib = [nm for nm, c in dm.columns if c is not col and kind_of(c) == kd]
+        sib = [nm for nm, c in columns_of(dm) if c is not col and kind_of(c) == kd]
         sib_tag = []
         if sib and not (kd == 'KMixed' and any(isinstance(k, float) and k != k for k, _v in pairs)):
             col3 = dm[sib[0]]
@@ -773,7 +873,7 @@ class C15:
             elif 'obj' in a:
                 c = dm[a['obj']]
                 args.append(c)
-                nm = [n for n, cc in dm.columns if cc is c]
+                nm = [n for n, cc in columns_of(dm) if cc is c]
                 margs.append('(AObj %s)' % L.lst(L.string(n) for n in nm))
                 if len(nm) == 1:
                     names.append(nm[0])
@@ -796,8 +896,8 @@ class C15:
             return idmap.setdefault(id(c), len(idmap))
 
         def owner_lit(d):
-            return L.lst('(%s, %s)' % (L.string(n), L.nat(oid(cc))) for n, cc in d.columns)
-        ids_lit = L.lst(L.nat(oid(cc)) for _n, cc in dm.columns)
+            return L.lst('(%s, %s)' % (L.string(n), L.nat(oid(cc))) for n, cc in columns_of(d))
+        ids_lit = L.lst(L.nat(oid(cc)) for _n, cc in columns_of(dm))
         oargs = []
         for a, obj in zip(inp['args'], args):
             if 'name' in a:
@@ -823,7 +923,7 @@ class C15:
         r2, obs2, _ob2, p3 = self._outcome_tbl(thunk)          # the same arguments once more
         pyfail = pyfail or p3 or again('keep_only', r, obs, r2, obs2) or arg_changed('keep_only', 'argument list', a_before, largs)
         for a, obj in zip(inp['args'], args):
-            if 'obj' in a and (not any(cc is obj for _n, cc in dm.columns) or obj._datamatrix is not dm):
+            if 'obj' in a and (not any(cc is obj for _n, cc in columns_of(dm)) or obj._datamatrix is not dm):
                 pyfail = pyfail or 'a column passed to keep_only no longer belongs to its table'
         if r is not None and r is dm:
             pyfail = pyfail or 'keep_only returned its source'
@@ -878,7 +978,7 @@ class C15:
             pyfail = pyfail or p2 or again('z', r, obs, r2, col_obs(r2)[0])
             if r is col:
                 pyfail = pyfail or 'z returned its source column'
-            if not any(cc is col for _n, cc in dm.columns) or col._datamatrix is not dm:
+            if not any(cc is col for _n, cc in columns_of(dm)) or col._datamatrix is not dm:
                 pyfail = pyfail or 'the column passed to z no longer belongs to its table'
             out = list(r)
             fin = [float(x) for x in out if isinstance(x, (int, float)) and math.isfinite(x)]
@@ -1081,6 +1181,49 @@ class C15:
         assert hist_len(tab) == state['L'] and 1 <= state['L'] <= nmax, tab
         return tab, names
 
+    def _late_columns(self, rng, tab, names, op=None, cols=None, kinds=None):
+        """Appends to the history of `tab` (in place): the table is READ -- dm.columns, dm.column_names, str(dm), row
+        iteration, or an earlier call of one of the five operations on the same table object --, then one to three
+        columns are added WITHOUT any cell assignment: by type, by a (type, kwargs) pair, as a second name of an
+        existing column; sometimes the table is read once more.  Nothing is written afterwards, so the operation
+        under test meets a table whose column set changed since it was last looked at.  -> the new names"""
+        have = [c[0] for c in tab['cols']] + [st[1] for st in tab.get('hist') or [] if st[0] == 'addcol']
+        if not have:
+            return []
+        fresh = [x for x in NAMES + ['late', 'A0', 'y2', 'bb'] if x not in have and x not in names]
+        rng.shuffle(fresh)
+
+        def read():
+            c = rng.random()
+            if c < 0.45:
+                return ['read', rng.choice(['columns', 'column_names', 'str', 'rows'])]
+            if c < 0.75 and op in ('weight', 'z', 'replace', 'keep'):
+                # the operation under test itself, called before on the same table
+                col = cols.get(op) if cols else None
+                return ['read', op, col or rng.choice(have)] if op != 'keep' else ['read', rng.choice(['keep', 'getitem']), rng.choice(have)]
+            if c < 0.8 and op == 'ff':
+                return ['read', 'ff']
+            return ['read', rng.choice(['weight', 'z', 'replace', 'keep', 'getitem']), rng.choice(have)]
+        tail = [read()]
+        if rng.random() < 0.3:
+            tail.append(read())
+        added = []
+        for _ in range(rng.choice([1, 1, 2, 3])):
+            new = fresh.pop()
+            c = rng.random()
+            if c < 0.4:
+                tail.append(['addtype', new, rng.choice(kinds or KINDS)])
+            elif c < 0.65:
+                tail.append(['addtuple', new, rng.choice(kinds or KINDS)])
+            else:
+                tail.append(['alias', new, rng.choice(have + added)])
+            added.append(new)
+        if rng.random() < 0.3:
+            tail.append(['read', rng.choice(['columns', 'column_names', 'str', 'rows', 'len'])])
+        tab['hist'] = list(tab.get('hist') or []) + tail
+        assert hist_len(tab) is not None, tab
+        return added
+
     def _payload(self, rng, n, k):
         pool = {'KMixed': ['x', 'y', '', 1, 2.5, None, 'é', NAN], 'KFloat': [0.0, 1.5, -2.25, NAN, INF], 'KInt': [0, 1, -3, 7]}[k]
         return [rng.choice(pool) for _ in range(n)]
@@ -1088,7 +1231,7 @@ class C15:
     def gen_weight(self, rng, tier):
         cases = []
 
-        def one(ws, wkind, tags=(), reorder=None, hist=False):
+        def one(ws, wkind, tags=(), reorder=None, hist=False, late=False):
             n = len(ws)
             cols = [(wkind, ws)]
             for k in rng.sample(KINDS, rng.randint(1, 3)):
@@ -1096,6 +1239,8 @@ class C15:
             rng.shuffle(cols)
             widx = [i for i, c in enumerate(cols) if c[1] is ws][0]
             tab, names = self._hist_table(rng, n, cols, 5) if hist else self._table(rng, n, cols, reorder or 'any')
+            if late:
+                self._late_columns(rng, tab, names, 'weight', {'weight': names[widx]})
             cases.append(self.rerun({'op': 'weight', 'tab': tab, 'wname': names[widx], 'tags': list(tags)}))
         maxn = 3
         for n in range(1, maxn + 1):
@@ -1126,9 +1271,19 @@ class C15:
             ws = [rng.randint(0, 4) for _i in range(rng.randint(2, 4))]
             ws[rng.randrange(len(ws))] = rng.choice(bad)
             one(ws, 'KMixed', ['history', 'invalid'], hist=True)
+        # the table was looked at (dm.columns, printing, row iteration, an earlier weight / z / replace / keep_only call
+        # on it), then columns were added by type / by (type, kwargs) / as a second name and never assigned to: the
+        # result must hold them too (default cells / the cells of the aliased column, types preserved)
+        for _ in range(70 if tier == 'quick' else 700):
+            ws = [rng.randint(0, 4) for _i in range(rng.randint(1, 4))]
+            wk = rng.choice(['KMixed', 'KInt'])
+            if rng.random() < 0.12:
+                ws[rng.randrange(len(ws))] = rng.choice(bad)
+                wk = 'KMixed'
+            one(ws, wk, ['late-columns'], hist=rng.random() < 0.5, late=True)
         # tables that also hold series columns (judged on the Python side): every weight vector in 0..3 for 1-2 rows,
         # sampled longer ones, invalid weights, several series columns of different depth, reordered rows
-        def with_series(ws, wkind):
+        def with_series(ws, wkind, late=False):
             n = len(ws)
             series = [[nm, rng.randint(1, 4)] for nm in rng.sample(['s', 'aa', 'zs'], rng.randint(1, 2))]
             payload = rng.random() < 0.5
@@ -1138,8 +1293,22 @@ class C15:
             if n > 1 and rng.random() < 0.4:
                 rowop = list(range(n))
                 rng.shuffle(rowop)
-            cases.append(self.rerun({'op': 'weight_series', 'weights': enc_cells(ws), 'wkind': wkind, 'series': series,
-                                     'payload': payload, 'order': order, 'rowop': rowop}))
+            inp = {'op': 'weight_series', 'weights': enc_cells(ws), 'wkind': wkind, 'series': series,
+                   'payload': payload, 'order': order, 'rowop': rowop}
+            if late:
+                have = list(order)
+                fresh = [x for x in ['t2', 'late', 'A0', 'm', 'zz'] if x not in have]
+                rng.shuffle(fresh)
+                tail = [['read', rng.choice(['columns', 'column_names', 'str', 'rows'])] if rng.random() < 0.6
+                        else ['read', 'weight', 'w']]
+                for _i in range(rng.choice([1, 1, 2])):
+                    new = fresh.pop()
+                    c = rng.random()
+                    tail.append(['addseries', new, rng.randint(1, 4)] if c < 0.45 else ['addtype', new, rng.choice(KINDS)] if c < 0.65
+                                else ['addtuple', new, rng.choice(KINDS)] if c < 0.75 else ['alias', new, rng.choice(have)])
+                    have.append(new)
+                inp['late'] = tail
+            cases.append(self.rerun(inp))
         for n in (1, 2):
             for ws in itertools.product(range(4), repeat=n):
                 with_series(list(ws), rng.choice(['KMixed', 'KInt']))
@@ -1151,6 +1320,14 @@ class C15:
             ws[rng.randrange(n)] = rng.choice(bad)
             with_series(ws, 'KMixed')
         with_series([rng.choice([-1, -2]) for _i in range(2)], 'KInt')
+        for _ in range(30 if tier == 'quick' else 300):
+            # read, then SeriesColumn(depth=..) / typed columns / second names added and never assigned to
+            ws = [rng.randint(0, 3) for _i in range(rng.randint(1, 4))]
+            wk = rng.choice(['KMixed', 'KInt'])
+            if rng.random() < 0.1:
+                ws[rng.randrange(len(ws))] = rng.choice(bad)
+                wk = 'KMixed'
+            with_series(ws, wk, late=True)
         return cases
 
     def gen_fullfact(self, rng, tier):
@@ -1181,7 +1358,7 @@ class C15:
         cases = []
         values = ['a', 'b', 1, 2, 2.5, None, 'é', 0, -1, 'a', 1]      # duplicates on purpose
 
-        def design(ncol, nrow, mask, ig, default_ignore, reorder=None, kinds=None, hist=False):
+        def design(ncol, nrow, mask, ig, default_ignore, reorder=None, kinds=None, hist=False, late=False):
             cols = []
             for c in range(ncol):
                 cells = []
@@ -1199,6 +1376,8 @@ class C15:
                 cols.append((kd, cells))
             more = {c: [v for v in rng.sample(values, 3) if not _pyeq(v, ig)] for c in range(ncol) if cols[c][0] == 'KMixed'}
             tab, _names = self._hist_table(rng, nrow, cols, 4, more) if hist else self._table(rng, nrow, cols, reorder)
+            if late and nrow:
+                self._late_columns(rng, tab, _names, 'ff', kinds=['KMixed'] if rng.random() < 0.85 else None)
             cases.append(self.rerun({'op': 'ff', 'tab': tab, 'ignore': pyobs.enc(ig), 'default_ignore': default_ignore}))
         igs = ['', 0, 'q', None, NAN, 2.5]
         for ncol in range(1, 4):
@@ -1222,6 +1401,13 @@ class C15:
             mask = [1 if rng.random() < p else 0 for _ in range(ncol * nrow)]
             ig = '' if rng.random() < 0.7 else rng.choice(igs)
             design(ncol, nrow, mask, ig, ig == '' and rng.random() < 0.8, hist=True)
+        # the design table was looked at, then factors were added by type / as a second name of another factor and never
+        # assigned to (a MixedColumn created by type holds '' in every row)
+        for _ in range(30 if tier == 'quick' else 300):
+            ncol, nrow = rng.choice([1, 2, 2, 3]), rng.choice([1, 2, 2, 3])
+            mask = [1 if rng.random() < 0.2 else 0 for _ in range(ncol * nrow)]
+            ig = '' if rng.random() < 0.7 else rng.choice(igs)
+            design(ncol, nrow, mask, ig, ig == '' and rng.random() < 0.8, hist=rng.random() < 0.4, late=True)
         # outside the quantifier (model only): non-Mixed columns, no columns
         for _ in range(6):
             design(2, 2, [0, 0, 0, 0], '', True, kinds=rng.choice([['KMixed', 'KInt'], ['KFloat', 'KMixed'], ['KInt', 'KInt']]))
@@ -1246,7 +1432,7 @@ class C15:
             'KInt': [100, 101, 55, 2.7, -8.9, 3.0, 1, 2],
         }
 
-        def one(kd, mapping, tags, hist=False):
+        def one(kd, mapping, tags, hist=False, late=False):
             n = rng.randint(1, 6 if not hist else 4)
             cells = [rng.choice(pools[kd]) for _ in range(n)]
             cols = [(kd, cells)]
@@ -1255,6 +1441,8 @@ class C15:
             rng.shuffle(cols)
             idx = [i for i, c in enumerate(cols) if c[1] is cells][0]
             tab, names = self._hist_table(rng, n, cols, 6) if hist else self._table(rng, n, cols, 'any')
+            if late:
+                self._late_columns(rng, tab, names, 'replace', {'replace': names[idx]})
             cases.append(self.rerun({'op': 'replace', 'tab': tab, 'col': names[idx],
                                      'mapping': [[pyobs.enc(k), pyobs.enc(v)] for k, v in mapping], 'tags': tags}))
         reps = 110 if tier == 'quick' else 1500
@@ -1267,6 +1455,11 @@ class C15:
                 # the column of a table that has a history (reordered, grown, merged, ...)
                 keys = rng.sample(keyp[kd], rng.randint(1, 4))
                 one(kd, [(k, rng.choice(valp[kd])) for k in keys], ['mapping:random', 'history'], hist=True)
+            for _ in range(reps // 8):
+                # the table was looked at / used before, columns were added by type / as a second name since
+                keys = rng.sample(keyp[kd], rng.randint(1, 3))
+                one(kd, [(k, rng.choice(valp[kd])) for k in keys], ['mapping:random', 'late-columns'],
+                    hist=rng.random() < 0.4, late=True)
             for _ in range(reps // 4):
                 # chains: a value that is itself a later / earlier key (outside the quantifier: model only)
                 ks = rng.sample([k for k in pools[kd] if k == k], min(3, len(pools[kd]) - 1))
@@ -1292,16 +1485,22 @@ class C15:
         cases = []
         vias = ['keep_only', 'keep_only_list', 'getitem_tuple', 'getitem_list']
 
-        def one(ncol, args, via, alias=None, hist=False):
+        def one(ncol, args, via, alias=None, hist=False, late=False):
             n = rng.randint(0 if rng.random() < 0.05 and not hist else 1, 4)
             cols = [(k, self._payload(rng, n, k)) for k in [rng.choice(KINDS) for _ in range(ncol)]]
             tab, names = self._hist_table(rng, n, cols, 5) if hist else self._table(rng, n, cols, 'any')
+            added = self._late_columns(rng, tab, names, 'keep') if late and n else []
+            if added:
+                # the columns added late are named too (by name or object), now and then
+                args = list(args) + [('latename' if rng.random() < 0.5 else 'lateobj', a) for a in added if rng.random() < 0.4]
             real = []
             for a in args:
                 if a[0] == 'name':
                     real.append({'name': names[a[1]]})
                 elif a[0] == 'obj':
                     real.append({'obj': names[a[1]]})
+                elif a[0] in ('latename', 'lateobj'):
+                    real.append({'name' if a[0] == 'latename' else 'obj': a[1]})
                 elif a[0] == 'unknown':
                     real.append({'name': 'nope%d' % a[1]})
                 elif a[0] == 'foreign':
@@ -1334,6 +1533,11 @@ class C15:
             ncol = rng.randint(1, 4)
             sub = rng.sample(range(ncol), rng.randint(1, ncol))
             one(ncol, [(rng.choice(['name', 'obj']), i) for i in sub], rng.choice(vias), hist=True)
+        # the table was looked at / used before, columns were added by type / (type, kwargs) / as a second name since
+        for _ in range(45 if tier == 'quick' else 500):
+            ncol = rng.randint(1, 3)
+            sub = rng.sample(range(ncol), rng.randint(0, ncol))
+            one(ncol, [(rng.choice(['name', 'obj']), i) for i in sub], rng.choice(vias), hist=rng.random() < 0.4, late=True)
         # selection by object after the column's name was looked up and the column was renamed / re-added / swapped:
         # the object must be found under its CURRENT name
         for _ in range(90 if tier == 'quick' else 900):
@@ -1372,7 +1576,7 @@ class C15:
     def gen_z(self, rng, tier):
         cases = []
 
-        def one(kd, cells, exact_s=None, tags=(), hist=False):
+        def one(kd, cells, exact_s=None, tags=(), hist=False, late=False):
             n = len(cells)
             cols = [(kd, cells)]
             for k in rng.sample(KINDS, rng.randint(0, 2)):
@@ -1380,6 +1584,8 @@ class C15:
             rng.shuffle(cols)
             idx = [i for i, c in enumerate(cols) if c[1] is cells][0]
             tab, names = self._hist_table(rng, n, cols, max(n, 3) + 2) if hist else self._table(rng, n, cols, 'any')
+            if late:
+                self._late_columns(rng, tab, names, 'z', {'z': names[idx]})
             inp = {'op': 'z', 'tab': tab, 'col': names[idx]}
             if exact_s is not None:
                 inp['exact_s'] = [exact_s.numerator, exact_s.denominator]
@@ -1473,6 +1679,43 @@ class C15:
             one(kd, cells)
             if _ % 4 == 0:          # the column of a table that has a history (the cells as they are then)
                 one(kd, cells, tags=['z:history'], hist=True)
+            if _ % 6 == 1:          # the table was looked at / used before, columns were added by type / alias since
+                one(kd, cells, tags=['z:late-columns'], hist=rng.random() < 0.4, late=True)
+        # the same measurements in other UNITS: values (and spreads) of very small and very large magnitude -- charges in
+        # coulomb ~1e-19, 1e-30, 1e-100, 1e100, 1e140 -- and an offset of 1e8 with a spread of 1e-3.  z is invariant
+        # under a change of unit and so is the a-priori bound (it depends on max|x|/std only) as long as no square
+        # under- or overflows: magnitudes 1e-145 .. 1e145 are judged like any other input.
+        # Pending (unchanged tree, see INCLUDE_PENDING_FINDINGS): beyond about 1e-160 / 1e155 the squared deviations
+        # under- / overflow, std is 0 or inf and z returns +-inf / 0 / raises ZeroDivisionError (MixedColumn).
+        exps = [-18, -18, -19, -17, -16, -15, -21, -24, -30, -60, -100, -140, -145, 15, 20, 60, 100, 140, 145]
+        if INCLUDE_PENDING_FINDINGS:
+            exps += [-300, -200, -165, 160, 200, 300]
+        for _ in range(70 if tier == 'quick' else 900):
+            kd = rng.choice(['KFloat', 'KFloat', 'KMixed'])
+            n = rng.randint(2, 8)
+            if rng.random() < 0.75:
+                e = rng.choice(exps)
+                while True:
+                    base = [rng.choice([rng.randint(-20, 20), rng.randint(-200, 200) / 8.0, rng.randint(-99, 99) / 10.0,
+                                        rng.choice([3, 1, 4, 1, 5, 9, 2, 6])]) for _i in range(n)]
+                    if rng.random() < 0.3:
+                        base = [abs(b) for b in base]
+                    xs = [b * 10.0 ** e for b in base]
+                    if len(set(xs)) >= 2:
+                        break
+                tg = 'z:magnitude-1e%d' % e
+            else:
+                b = rng.choice([1e8, -1e8, 123456789.0, 1e8 + 0.5, 3e8])
+                while True:
+                    xs = [b + rng.choice([rng.randint(-9, 9), rng.randint(0, 3), rng.randint(-40, 40) / 4.0]) * 1e-3 for _i in range(n)]
+                    if len(set(xs)) >= 2:
+                        break
+                tg = 'z:offset-1e8-spread-1e-3'
+            cells = [float(x) for x in xs]
+            junk = {'KMixed': ['x', None, NAN, ''], 'KFloat': [NAN]}[kd]
+            for _j in range(rng.randint(0, 2) if rng.random() < 0.5 else 0):
+                cells.insert(rng.randrange(len(cells) + 1), rng.choice(junk))
+            one(kd, cells, tags=['z:units', tg], hist=rng.random() < 0.15)
         # families with a rational standard deviation: a-d, a, a+d  and  a-d, a-d, a, a+d, a+d  (s = d)
         for _ in range(40 if tier == 'quick' else 400):
             kd = rng.choice(['KFloat', 'KMixed', 'KInt'])
@@ -1537,11 +1780,16 @@ class C15:
             if len(ws) > 1:
                 for i in range(len(ws)):
                     yield dict(inp, weights=ws[:i] + ws[i + 1:], rowop=None)
-            if len(inp['series']) > 1:
+            if inp.get('late'):
+                lt = inp['late']
+                for i in range(len(lt)):
+                    if not any(st[0] == 'alias' and st[2] == lt[i][1] for st in lt[i + 1:] if lt[i][0] != 'read'):
+                        yield dict(inp, late=lt[:i] + lt[i + 1:] or None)
+            if len(inp['series']) > 1 and not any(st[0] == 'alias' for st in inp.get('late') or []):
                 for i in range(len(inp['series'])):
                     sr = inp['series'][:i] + inp['series'][i + 1:]
                     yield dict(inp, series=sr, order=[x for x in inp['order'] if x in ('w', 'p') or x in dict(sr)])
-            if inp.get('payload'):
+            if inp.get('payload') and not any(st[0] == 'alias' for st in inp.get('late') or []):
                 yield dict(inp, payload=False, order=[x for x in inp['order'] if x != 'p'])
             return
         tab = inp['tab']
